@@ -13,7 +13,7 @@ RULE = ('histories of 1-3 operations (Stream.mix_from with 0-5 inlets, split_to,
         'phases from s l g S L, the receiver among the inlets 0/1/2 times, dyadic flows including all-zero streams, '
         'energy_balance on and off, the temperature solver made to fail 0-3 times (fallback to multi-phase); families of histories '
         'for cache-order effects, MultiStream.copy_flow and aliases (flow_proxy objects with their own phase, sub-streams ms[p] handed '
-        'out before the history; what EVERY stream object shows is compared); executed on '
+        'out before the history and also used as RECEIVERS of separate_out / copy_flow / scale; what EVERY stream object shows is compared); executed on '
         'the real classes and on the Coq model; the whole store (class, package, phases, every phase x chemical flow) or '
         'the exception class and the store before the raising call are compared.  non-trivial = an operation succeeded '
         'and changed the store, or raised; distinct = distinct case hash')
@@ -295,8 +295,14 @@ def gen_alias_case(rng):
     ops = []
     for _ in range(rng.choice([2, 3, 3, 4])):
         kind = rng.choice(['mix_alias1', 'mix_alias1', 'mix_aliasn', 'mix_new_phase', 'mix_new_phase', 'mix_from_view', 'mix_rebind', 'mix_twin', 'mix_twin', 'split', 'split_multi',
-                           'sep', 'scale', 'copy_flow', 'mul'])
+                           'sep', 'scale', 'copy_flow', 'mul', 'sep_view', 'scale_view', 'copy_view'])
         r = rng.choice(nonviews)
+        if kind in ('sep_view', 'scale_view', 'copy_view'):
+            # a sub-stream multistream[p] as the RECEIVER of the in-place operations (its phase is locked, its
+            # indexer wraps the row object of the MultiStream)
+            kind = {'sep_view': 'sep', 'scale_view': 'scale', 'copy_view': 'copy_flow'}[kind]
+            if views:
+                r = rng.choice(views)
         same = [k for k in range(nh) if k != r and cell[k] == cell[r]]
         if kind == 'mix_alias1':
             # one non-empty inlet that shares the receiver's data (or is one of its sub-streams): copy_like path
@@ -420,6 +426,47 @@ def gen_case_pair_case(rng):
             ops.append(['copy_flow', 0, 1, None, rng.random() < 0.5, False, rng.choice([None] + pair)])
     return {'streams': streams, 'ops': ops}
 
+def gen_view_recv_case(rng):
+    """per-phase sub-streams multistream[p] as the RECEIVERS of separate_out / copy_flow / scale (in place on the row
+    object they wrap), interleaved with operations on the MultiStream itself and on its other sub-streams"""
+    k = rng.choice([0, 0, 1, 2, 4])
+    ph = sorted(rng.sample(PHASES, rng.choice([2, 2, 3])))
+    def row(pk, dense=0.7): return [float(rng.choice(VALS[1:])) if rng.random() < dense else 0. for _ in PKGS[pk]]
+    streams = [{'pkg': k, 'multi': True, 'phases': ph, 'flows': [row(k) for _ in ph]}]
+    for _ in range(rng.choice([1, 2, 2])):
+        kk = rng.choice([k, k, 1, 3])
+        streams.append({'pkg': kk, 'multi': False, 'phases': [rng.choice(PHASES)], 'flows': [row(kk, 0.5)]})
+    if rng.random() < 0.5:
+        kk = rng.choice([k, k, 1])
+        ph2 = sorted(rng.sample(['g', 'l', 's'], 2))
+        streams.append({'pkg': kk, 'multi': True, 'phases': ph2, 'flows': [row(kk, 0.5) for _ in ph2]})
+    ns = len(streams)
+    handles = [['view', 0, p] for p in rng.sample(ph, rng.choice([1, 2]))]
+    if rng.random() < 0.4:
+        handles.append(['proxy', 1, rng.choice(['l', 'g', streams[1]['phases'][0]])])
+    if streams[-1]['multi'] and ns > 2 and rng.random() < 0.5:
+        handles.append(['view', ns - 1, rng.choice(streams[-1]['phases'])])
+    nh = ns + len(handles)
+    cell = list(range(ns)) + [h[1] for h in handles]
+    views = [x for x in range(ns, nh) if handles[x - ns][0] == 'view']
+    ops = []
+    for _ in range(rng.choice([2, 3, 3, 4])):
+        u = rng.random()
+        v = rng.choice(views)
+        if u < 0.3:
+            ops.append(['sep', v, rng.randrange(nh)])
+        elif u < 0.5:
+            ops.append(['scale', v, float(rng.choice(KS))])
+        elif u < 0.8:
+            src = rng.choice([x for x in range(nh) if cell[x] != cell[v]])
+            ids = None if rng.random() < 0.5 else rng.sample(PKGS[streams[cell[src]]['pkg']], rng.choice([1, 1, 2]))
+            ops.append(['copy_flow', v, src, ids, rng.random() < 0.7, rng.random() < 0.15, None])
+        elif u < 0.9:
+            ops.append(['scale', cell[v], float(rng.choice(KS))])
+        else:
+            ops.append(['mix', cell[v], [rng.randrange(nh) for _ in range(rng.choice([1, 2]))], False, 0])
+    return {'streams': streams, 'handles': handles, 'ops': ops}
+
 def gen_case(rng):
     case = gen_case_family(rng)
     if rng.random() < 0.5:
@@ -434,6 +481,8 @@ def gen_case_family(rng):
         return gen_split_case(rng)
     if 0.35 <= u < 0.40:
         return gen_case_pair_case(rng)
+    if 0.40 <= u < 0.46:
+        return gen_view_recv_case(rng)
     if u < 0.15:
         return gen_cache_case(rng)
     if u < 0.27:
@@ -562,7 +611,7 @@ def handle_cells(case):
     return list(range(n)) + [h[1] for h in case.get('handles', [])]
 
 def in_fragment(case, store, op):
-    """mirror of Model.safe_op: sub-streams are not used as receivers; a history with aliases stops once a linked
+    """mirror of Model.safe_op: sub-streams are receivers of separate_out / copy_flow / scale only; a history with aliases stops once a linked
     MultiStream is out of step with its rows (phases tuple and rows list of different lengths)"""
     if not case.get('handles'):
         return True
@@ -577,8 +626,12 @@ def in_fragment(case, store, op):
         return not is_view(op[2]) and not is_view(op[3])
     if name == 'mix':
         return not is_view(op[1]) and alias_mix_class(case, store, op) is None
-    if name in ('sep', 'copy_flow', 'scale'):
-        return not is_view(op[1])
+    if name == 'copy_flow' and is_view(op[1]):
+        # into a sub-stream from a stream on the same flow data: outside (mirror of Model.safe_op / same_cell; the
+        # static cells are a safe over-approximation of the model's current cells)
+        cells = handle_cells(case)
+        d, s = op[1], op[2]
+        return not (d < len(cells) and s < len(cells) and cells[d] == cells[s])
     return True
 
 def alias_mix_class(case, store, op):
@@ -706,6 +759,10 @@ def classify(case, out):
         if j > n_ok: break
         res = 'ok' if j < n_ok else 'raise:' + str(out.get('error'))
         ks.append(f'op:{o[0]}:{res}')
+        nst, hd = len(case['streams']), case.get('handles', [])
+        if (o[0] in ('sep', 'scale', 'copy_flow') and nst <= o[1] < nst + len(hd) and hd[o[1] - nst][0] == 'view'
+                and j < len(out.get('ops', []))):
+            ks.append(f'recv=sub-stream:{o[0]}:{res}')
         if o[0] == 'mix':
             r, ins = o[1], o[2]
             ks.append(f'mix:inlets={len(ins)}')
